@@ -429,14 +429,14 @@ def run_history(n, edges, always_run, fail, muts):
 
 def mutation_sets(n, edges, tier):
     """every single mutation, and every pair {one new job, one new edge between existing jobs} (the new job is created
-    first); thorough also every pair of new edges"""
+    first); thorough also every pair of new edges for n <= 3"""
     have = {(u, v) for u, v, _ in edges}
     kinds = ('dep',) if tier == 'quick' else ('dep', 'res')
     adds = [('front', x) for x in range(n)] + [('end', x) for x in [None] + list(range(n))]
     es = [('edge', u, v, k) for u in range(n) for v in range(n) if u != v and (u, v) not in have for k in kinds]
     out = [(m,) for m in adds + es]
     out += [(a, e) for a in adds for e in es]
-    if tier != 'quick':
+    if tier != 'quick' and n <= 3:
         out += [(e1, e2) for i, e1 in enumerate(es) for e2 in es[i + 1:] if (e1[1], e1[2]) != (e2[1], e2[2])]
     return out
 
@@ -644,7 +644,7 @@ def check(tier, seed, procs):
                   + (' x always_run {none, each single job}' if tier != 'quick' else '') + ': run(); then every single mutation of '
                   'the same Batch from {new job in front of x, new job after x / independent, new depends_on'
                   + ('/resource' if tier != 'quick' else '') + ' edge between any two existing jobs incl. cycle-closing and '
-                  'earlier-on-later} and every pair {new job, new edge}' + (' and every pair of new edges' if tier != 'quick' else '')
+                  'earlier-on-later} and every pair {new job, new edge}' + (' and (2..3 jobs) every pair of new edges' if tier != 'quick' else '')
                   + '; run() again; the second run is judged',
         'two_run_histories': htot['hist'],
         'histories_whose_second_run_is_cyclic': htot['cyc2'],
